@@ -369,7 +369,7 @@ Definition cut_quads {X V E} (prof : list X -> profile V E) (addf : profile V E 
 Record obs (V : Type) := mko {
   o_whole : profile V N;
   o_cut : option (nat * profile V N);
-  o_quads : list (Z * Z * option Z * option Z);
+  o_quads : list (nat * (Z * Z * option Z * option Z));   (* run-length encoded, in cut order *)
   o_estimate : Z
 }.
 Arguments mko {V}. Arguments o_whole {V}. Arguments o_cut {V}. Arguments o_quads {V}. Arguments o_estimate {V}.
@@ -387,7 +387,8 @@ Definition check_common {X V} (ev : V -> V -> bool) (big : bool) (prof : list X 
       | None => true
       | Some (k, s) => sum_eqb ev (addf (prof (firstn k c)) (prof (skipn k c))) s
       end &&
-      (if big then true else list_eqb quad_eqb (cut_quads prof addf c) (o_quads o))
+      (if big then true
+       else list_eqb quad_eqb (cut_quads prof addf c) (flat_map (fun r => repeat (snd r) (fst r)) (o_quads o)))
   end.
 
 Definition hist_ok {X} (sample : list X) (h : list (N * Z)) : bool :=
